@@ -204,7 +204,7 @@ class Model:
             if isinstance(st, (ast.FunctionDef, ast.AsyncFunctionDef)):
                 f = FunctionInfo(mod, qualname + '.' + st.name, st, c)
                 decs = f.decorators
-                if 'property' in decs:
+                if 'property' in decs or any(d.split('.')[-1] == 'cached_property' for d in decs):
                     c.properties.setdefault(st.name, {})['get'] = f
                     c.methods.setdefault(st.name, f)
                 elif any(d.endswith('.setter') for d in decs):
